@@ -96,8 +96,8 @@ theorem map_upper_eq_iff_map_lower_eq (a b : Str) : a.map upperC = b.map upperC 
       simp only [List.map_cons, List.cons.injEq]
       rw [upperC_eq_iff_lowerC_eq, ih ys]
 
-/-- on ASCII strings, "equal after `.upper()`" (the parser's test) and "equal after `.lower()`" (the
-manager's test) coincide; `kelvin_name_resolves_to_other_register` in Props shows they do not beyond ASCII -/
+/-- on ASCII strings, "equal after `.upper()`" and "equal after `.lower()`" coincide (they do not beyond
+ASCII: U+212A KELVIN SIGN; this is why parser and manager now both fold with `upper()`, fix 5ae01c1) -/
 theorem upper_eq_iff_lower_eq (a b : Str) (ha : isAscii a) (hb : isAscii b) :
     upper a = upper b ↔ lower a = lower b := by
   rw [upper_ascii a ha, upper_ascii b hb, lower_ascii a ha, lower_ascii b hb]
@@ -106,7 +106,7 @@ theorem upper_eq_iff_lower_eq (a b : Str) (ha : isAscii a) (hb : isAscii b) :
 /-! ### `_get_dict_item_case_insensitive` -/
 
 theorem lookupCI_some {β : Type} (b : Dict Str β) (n : Str) (d : β) (h : lookupCI b n = some d) :
-    ∃ key, (key, d) ∈ b ∧ lower n = lower key := by
+    ∃ key, (key, d) ∈ b ∧ upper n = upper key := by
   induction b with
   | nil => simp [lookupCI] at h
   | cons kv rest ih =>
@@ -120,7 +120,7 @@ theorem lookupCI_some {β : Type} (b : Dict Str β) (n : Str) (d : β) (h : look
       exact ⟨key, List.mem_cons_of_mem _ h1, h2⟩
 
 theorem lookupCI_isSome_of_mem {β : Type} (b : Dict Str β) (n key : Str) (d : β)
-    (hm : (key, d) ∈ b) (hl : lower n = lower key) : (lookupCI b n).isSome := by
+    (hm : (key, d) ∈ b) (hl : upper n = upper key) : (lookupCI b n).isSome := by
   induction b with
   | nil => simp at hm
   | cons kv rest ih =>
@@ -165,5 +165,27 @@ theorem dictGet_of_mem_nodup {α β : Type} [DecidableEq α] (b : Dict α β) (k
         exact hn.1 (List.mem_map_of_mem (f := Prod.fst) h)
       simp only [hx, if_false]
       exact ih hn.2 h
+
+end QmiModel.Adbasic
+
+namespace QmiModel.Adbasic
+
+theorem mem_dictSet {α β : Type} [DecidableEq α] (d : Dict α β) (k : α) (v : β) (x : α × β)
+    (h : x ∈ dictSet d k v) : x = (k, v) ∨ x ∈ d := by
+  induction d with
+  | nil => simp [dictSet] at h; exact Or.inl h
+  | cons kv rest ih =>
+    obtain ⟨a, b⟩ := kv
+    simp only [dictSet] at h
+    split at h
+    · rename_i hak
+      rcases List.mem_cons.1 h with h | h
+      · subst hak; exact Or.inl h
+      · exact Or.inr (List.mem_cons_of_mem _ h)
+    · rcases List.mem_cons.1 h with h | h
+      · exact Or.inr (h ▸ List.mem_cons_self)
+      · rcases ih h with h | h
+        · exact Or.inl h
+        · exact Or.inr (List.mem_cons_of_mem _ h)
 
 end QmiModel.Adbasic
